@@ -143,6 +143,54 @@ PQR_KINDS = [
 ]  # a blank line makes Atom.from_pqr_line raise IndexError (loud): outside
 
 
+def h_entry(eng):
+    """the dx2cube entry point (main.dx_to_cube on real files): the conversion does not depend on whether the files
+    start with comment / REMARK lines or directly with data, and non-finite values (inf, nan as C prints them) pass
+    through wherever they stand on a DX line (selectors; concrete files)"""
+    import os
+    import shutil
+    import sys
+    import tempfile
+
+    from pdb2pqr import main
+
+    pqr_header = eng.flag("pqr_starts_with_remark")
+    dx_header = eng.flag("dx_starts_with_comment")
+    special = [None, "inf", "nan", "-inf", "infinity"][eng.choice("non_finite_value", 5)]
+    where = eng.choice("its_position", 7)
+    atoms = [PQR_KINDS[0][1](1), PQR_KINDS[1][1](2), PQR_KINDS[0][1](3)]
+    pqr = (["REMARK   1 PQR file generated by PDB2PQR\n"] if pqr_header else []) + atoms + ["TER\n", "END\n"]
+    vals = [f"{0.5 * k - 1.25:.6e}" for k in range(7)]
+    if special:
+        vals[where] = special
+    dx = (["# Data from APBS\n"] if dx_header else []) + ["object 1 class gridpositions counts 1 1 7\n", "origin 0.0 0.0 0.0\n", "delta 1.0 0.0 0.0\n", "delta 0.0 1.0 0.0\n", "delta 0.0 0.0 1.0\n", "object 2 class gridconnections counts 1 1 7\n", "object 3 class array type double rank 0 items 7 data follows\n"]
+    dx += [" ".join(vals[i : i + 3]) + "\n" for i in range(0, 7, 3)] + ['attribute "dep" string "positions"\n']
+    tmp = tempfile.mkdtemp(prefix="c18-")
+    argv = sys.argv
+    try:
+        names = [os.path.join(tmp, n) for n in ("in.dx", "in.pqr", "out.cube")]
+        open(names[0], "w").writelines(dx)
+        open(names[1], "w").writelines(pqr)
+        sys.argv = ["dx2cube", "--log-level", "ERROR", *names]
+        try:
+            with patched((main.logging, "basicConfig", lambda *a, **k: None)):
+                main.dx_to_cube()
+        except (ValueError, TypeError, IndexError) as e:
+            eng.check(False, "conversion-runs", note=f"dx2cube raised {type(e).__name__}: {str(e)[:80]} (pqr header {pqr_header}, dx header {dx_header}, value {special} at {where})")
+            return
+        out = open(names[2]).read().split("\n")
+    finally:
+        sys.argv = argv
+        shutil.rmtree(tmp, ignore_errors=True)
+    head = out[2].split()
+    eng.check(len(head) == 4 and int(head[0]) == 3, "atom-count", note=f"cube header announces {head[0] if head else '?'} atoms, the PQR file has 3 (PQR starts with a REMARK line: {pqr_header})")
+    toks = [t for ln in out[6 + 3 :] for t in ln.split()]
+    eng.check(len(toks) == 7, "value-count", note=f"cube holds {len(toks)} values, the DX file 7 (value {special} at position {where}, DX starts with a comment: {dx_header})")
+    if len(toks) == 7:
+        ok = all((t.lower().lstrip("+").startswith(v[:3].lower()) if v.lstrip("-")[:3] in ("inf", "nan") else abs(float(t) - float(v)) <= 1e-5 * max(1.0, abs(float(v)))) for t, v in zip(toks, vals))
+        eng.check(ok, "values-in-order", note=f"cube values {toks} for DX values {vals}")
+
+
 def h_atoms(eng, nlines):
     """read_pqr -> write_cube: every ATOM / HETATM line of the PQR file, wherever it stands (after TER / END /
     REMARK / blank lines, e.g. concatenated files), is listed exactly once, in order"""
@@ -177,6 +225,7 @@ def obligations(tier):
         for natoms in (0, 2):
             obs.append(Obligation(f"convert-header-{focus[0]}-atoms{natoms}", h_convert, dict(n=7, vpl=3, focus=focus, natoms=natoms, comments=True), group="convert", time_cap=1500))
     obs.append(Obligation("pqr-atoms-n3" if tier == "quick" else "pqr-atoms-n4", h_atoms, dict(nlines=3 if tier == "quick" else 4), group="atoms", time_cap=1200, max_paths=20000))
+    obs.append(Obligation("entry-point-real-files", h_entry, {}, group="entry", time_cap=1200))
     for n1, n2 in ((5, 7),) if tier == "quick" else ((5, 7), (7, 5), (0, 6), (6, 0), (13, 13)):
         obs.append(Obligation(f"two-conversions-n{n1}-then-n{n2}", h_two_conversions, dict(n1=n1, n2=n2), group="two-conversions", time_cap=1200))
     return obs
